@@ -9,7 +9,7 @@ EXPLANATION = ("Contracts of exception_try/try_end/try_fail/throw/catch are asse
                "body summarised by the induction hypothesis) and 1 (body threw). Structural induction over program trees is the lemma over these "
                "machine-checked steps and is not mechanised.")
 TRUSTED = ["C semantics of setjmp/longjmp/exit/abort (cut by recording noreturn stubs)",
-           "well-nestedness: buffers[depth-1] points into a live frame",
+           "well-nestedness: buffers[depth-1] points into a live frame (that two open activations of one block own different buffers is checked: construct.reentrant)",
            "structural induction over try/throw/catch program trees (lemma over the checked steps, not mechanised)",
            "current(Exception) returns the calling thread's record (Thread.c TLS, not decided: C13)"]
 
@@ -28,5 +28,6 @@ def jobs(tier):
     for n in [0, 1, 2, 3]:
         J.append(job("catch.filter%d" % n, "h_catch", ["NFILTER=%d" % n], replay="C07_nested.c", case="filter with %d entries" % n))
     J.append(job("construct.normal", "h_construct_normal"))
+    J.append(job("construct.reentrant", "h_construct_reentrant", replay="C07_nested.c"))
     J.append(job("construct.throw", "h_construct_throw", replay="C07_nested.c"))
     return J
